@@ -38,41 +38,45 @@ Proof.
   destruct (lin_first_last mn mx (lin_spacing base eb l) ro) as [f la]. reflexivity.
 Qed.
 Lemma lin_at_adm_window base eb mn mx tolv l cnt obs : lin_amb_level base eb mn mx false l = false ->
-  lin_at_adm base eb mn mx tolv l cnt obs =
-  match cnt with Some c => (c =? lin_count base eb mn mx false l)%Z | None => true end &&
-  (lin_count base eb mn mx false l <=? 1000000)%Z &&
-  close_list tolv (lin_ticks_at base eb mn mx false l) obs.
+  lin_at_adm base eb mn mx tolv l cnt obs = true ->
+  match cnt with Some c => c = lin_count base eb mn mx false l | None => True end /\
+  lin_count base eb mn mx false l = Z.of_nat (length obs) /\
+  close_list tolv (lin_ticks_at base eb mn mx false l) obs = true.
 Proof.
-  intro H. unfold lin_at_adm, lin_count, lin_ticks_at. cbv zeta. rewrite (first_last_adm_window _ _ _ _ _ _ H).
+  intros H. unfold lin_at_adm, lin_count, lin_ticks_at. cbv zeta. rewrite (first_last_adm_window _ _ _ _ _ _ H).
   destruct (lin_first_last mn mx (lin_spacing base eb l) false) as [f la]. cbn [fst snd existsb].
-  rewrite !Bool.orb_false_r. reflexivity.
+  rewrite !Bool.orb_false_r. intro K. apply andb_prop in K. destruct K as [K1 K2].
+  destruct (la - f + 1 =? Z.of_nat (length obs))%Z eqn:E; [|discriminate]. apply Z.eqb_eq in E.
+  split; [destruct cnt; [now apply Z.eqb_eq in K1 | exact I] | auto].
 Qed.
 
 (* group 20: a level outside the window that passes the admissible comparison passes the exact one:
    a borderline per-level observation has a floor/ceil decision of ITS level inside the window *)
 Theorem lin_level_adm_window base eb mn mx tolv lv : lin_amb_level base eb mn mx false (lv_level lv) = false ->
+  (lv_count lv <= MAXINT)%Z ->
   lin_level_adm base eb mn mx tolv lv = true -> lin_level_exact base eb mn mx tolv lv = true.
 Proof.
-  intros W H. unfold lin_level_adm in H. rewrite (lin_at_adm_window _ _ _ _ _ _ _ _ W) in H. unfold lin_level_exact. cbv zeta.
-  apply andb_prop in H. destruct H as [H H2]. apply andb_prop in H. destruct H as [H0 _].
-  apply andb_prop in H2. destruct H2 as [H2 H3]. apply andb_prop in H2. destruct H2 as [H1 H4].
-  apply Z.eqb_eq in H0, H1. apply Z.leb_le in H4. rewrite H0. cbn [Z.eqb]. rewrite H3.
-  replace (lin_count base eb mn mx false (lv_level lv) <=? 1000000)%Z with true by (symmetry; now apply Z.leb_le).
-  unfold count_ok. cbv zeta. rewrite H1. rewrite Z.min_l by (unfold MAXINT; lia). now rewrite Z.eqb_refl.
+  intros W Hi H. unfold lin_level_adm in H.
+  destruct ((lv_st lv =? 0)%Z && (lv_count lv =? Z.of_nat (length (lv_ticks lv)))%Z) eqn:G; [|discriminate].
+  apply andb_prop in G. destruct G as [G1 G2]. apply Z.eqb_eq in G1, G2.
+  destruct (lin_at_adm_window _ _ _ _ _ _ _ _ W H) as (C1 & C2 & C3).
+  unfold lin_level_exact. cbv zeta. rewrite G1. cbn [Z.eqb]. rewrite C2, Z.eqb_refl, <- C2, C3.
+  unfold count_ok. cbv zeta. rewrite <- C1. rewrite Z.min_l by exact Hi. now rewrite Z.eqb_refl.
 Qed.
 Corollary lin_levels_borderline_in_window base eb mn mx tolv levels :
+  (forall lv, In lv levels -> (lv_count lv <= MAXINT)%Z) ->
   forallb (lin_level_exact base eb mn mx tolv) levels = false ->
   forallb (fun lv => lin_level_exact base eb mn mx tolv lv || lin_level_adm base eb mn mx tolv lv) levels = true ->
   exists lv, In lv levels /\ lin_level_exact base eb mn mx tolv lv = false /\ lin_level_adm base eb mn mx tolv lv = true /\
              lin_amb_level base eb mn mx false (lv_level lv) = true.
 Proof.
-  induction levels as [|lv t IH]; cbn [forallb In]; intros HE HA; [discriminate|].
+  induction levels as [|lv t IH]; cbn [forallb In]; intros Hi HE HA; [discriminate|].
   apply andb_prop in HA. destruct HA as [HA1 HA2].
   destruct (lin_level_exact base eb mn mx tolv lv) eqn:E.
-  - cbn [andb] in HE. destruct (IH HE HA2) as (lv' & I & R). exists lv'. split; [now right | exact R].
+  - cbn [andb] in HE. destruct (IH (fun lv' I' => Hi lv' (or_intror I')) HE HA2) as (lv' & I & R). exists lv'. split; [now right | exact R].
   - cbn [orb] in HA1. exists lv. split; [now left|]. split; [exact E|]. split; [exact HA1|].
     destruct (lin_amb_level base eb mn mx false (lv_level lv)) eqn:W; [reflexivity|].
-    rewrite (lin_level_adm_window _ _ _ _ _ _ W HA1) in E. discriminate.
+    rewrite (lin_level_adm_window _ _ _ _ _ _ W (Hi lv (or_introl eq_refl)) HA1) in E. discriminate.
 Qed.
 
 (* ---------- groups 10 and 30/37: Ticks (with minor ticks recorded) and Nice ---------- *)
@@ -121,9 +125,9 @@ Proof.
     apply andb_prop in H. destruct H as [H Hmi]. apply andb_prop in H. destruct H as [H Hma].
     apply andb_prop in H. destruct H as [H Hlen]. apply andb_prop in H. destruct H as [HL1 HL2].
     apply Z.leb_le in HL1, HL2, Hlen.
-    rewrite (lin_at_adm_window _ _ _ _ _ _ _ _ (W L)) in Hma. cbn [andb] in Hma. apply andb_prop in Hma. destruct Hma as [_ Hma].
+    apply (lin_at_adm_window _ _ _ _ _ _ _ _ (W L)) in Hma. destruct Hma as (_ & _ & Hma).
     apply andb_prop in Hmi. destruct Hmi as [Hlow Hmi].
-    rewrite (lin_at_adm_window _ _ _ _ _ _ _ _ (W (L - 1)%Z)) in Hmi. cbn [andb] in Hmi. apply andb_prop in Hmi. destruct Hmi as [_ Hmi].
+    apply (lin_at_adm_window _ _ _ _ _ _ _ _ (W (L - 1)%Z)) in Hmi. destruct Hmi as (_ & _ & Hmi).
     pose proof (obs_close_length _ _ _ (close_list_sound _ _ _ Hma)) as Lma.
     pose proof (obs_close_length _ _ _ (close_list_sound _ _ _ Hmi)) as Lmi.
     exists L. split; [|auto].
@@ -154,7 +158,7 @@ Proof.
     apply andb_prop in H. destruct H as [H Hlow]. apply andb_prop in H. destruct H as [H Hma].
     apply andb_prop in H. destruct H as [H Hlen]. apply andb_prop in H. destruct H as [HL1 HL2].
     apply Z.leb_le in HL1, HL2, Hlen.
-    rewrite (lin_at_adm_window _ _ _ _ _ _ _ _ (W L)) in Hma. cbn [andb] in Hma. apply andb_prop in Hma. destruct Hma as [_ Hma].
+    apply (lin_at_adm_window _ _ _ _ _ _ _ _ (W L)) in Hma. destruct Hma as (_ & _ & Hma).
     pose proof (obs_close_length _ _ _ (close_list_sound _ _ _ Hma)) as Lma.
     exists L. split; [|auto].
     apply (find_level_is_lowest o _ 0 lo hi L Hb Mono Hm (conj HL1 HL2)).
